@@ -80,9 +80,47 @@ def extra(ctx, res):
                                                  "config": common.jval(cfg), "document": common.jval(doc), "update": False}})
 
 
+def extra_normalized(ctx, res):
+    """with normalization on (defaults, renames, coercions, purging first): the validation-phase errors still point into
+    the PROCESSED document -- a required-field error only where the processed document lacks the field"""
+    import copy
+    import random
+    import common
+    import pool
+    from gen import Gen
+    g = Gen(ctx["seed"] + 1213, normalization=True, nested_bias=True)
+    rng = random.Random(ctx["seed"] + 77)
+    n = 3000 if ctx["tier"] == "thorough" else 250 * ctx.get("scale", 1)
+    for i in range(n):
+        schema = g.schema()
+        for f, rs in schema.items():
+            if isinstance(rs, dict) and rng.random() < 0.4:
+                rs['required'] = True
+        cfg = g.config()
+        doc = g.doc_for(schema, p_present=0.55)
+        try:
+            v = pool.PoolValidator(copy.deepcopy(schema), **copy.deepcopy(cfg))
+            v.validate(copy.deepcopy(doc), update=False)
+        except Exception:
+            continue
+        res["cases"] += 1
+        if v._errors:
+            res["nontrivial"] += 1
+        try:
+            d = oracles.c12_oracle(schema, cfg, v.document, v._errors)
+        except Exception:
+            continue
+        if d and d.startswith("required-field"):
+            res["violations"].append({"signature": "locate-normalized:" + d.split(" ")[0][:24], "what": "(normalization on) " + d,
+                                      "replay": {"schema": common.jval(schema), "config": common.jval(cfg), "document": common.jval(doc), "update": False}})
+
+
 def run(ctx):
+    def both(c, r):
+        extra(c, r)
+        extra_normalized(c, r)
     return _vfamily.run_family(ctx, oracle, lambda d: "locate:" + d.split(" ")[0][:24], model_compare,
-                               nontrivial=lambda c, v: bool(v._errors), extra=extra,
+                               nontrivial=lambda c, v: bool(v._errors), extra=both,
                                rule="every validation-phase error of generated cases (all nesting kinds and combinations): document_path must lead to "
                                     "error.value in the processed document (parent container for required), code/rule from one definition, schema_path "
                                     "must resolve through the schema (conventions of DESIGN section 6 C12) to error.constraint, children exactly on group errors; "
